@@ -246,4 +246,4 @@ REGISTRY = {
 NOT_APPLICABLE = {}
 
 # commits in /repo that add the build-tag-guarded hooks
-HOOK_COMMITS = ["a962bf2", "d5ef0b2", "786be1f", "8e3f6d1"]
+HOOK_COMMITS = ["a962bf2", "d5ef0b2", "786be1f", "8e3f6d1", "c7600be"]
